@@ -20,6 +20,7 @@ package verifier
 
 import (
 	crypt "crypto"
+	"encoding/json"
 	"errors"
 	"fmt"
 	"strings"
@@ -47,7 +48,19 @@ var ExtractProtectedHeaders = crypto.ExtractProtectedHeaders
 func (sv *signatureVerifier) VerifySignature(credentialToVerify vc.VerifiableCredential, validateAt *time.Time) error {
 	switch credentialToVerify.Format() {
 	case vc.JSONLDCredentialProofFormat:
-		return sv.jsonldProof(credentialToVerify, credentialToVerify.Issuer.String(), validateAt)
+		if err := sv.jsonldProof(credentialToVerify, credentialToVerify.Issuer.String(), validateAt); err != nil {
+			return err
+		}
+		// members that are not defined by the credential's JSON-LD context are dropped by the canonicalization,
+		// so they are not covered by the signature that was just verified
+		credentialJSON, err := json.Marshal(credentialToVerify)
+		if err != nil {
+			return newVerificationError("invalid LD-JSON document: %w", err)
+		}
+		if err = jsonld.AllFieldsDefined(sv.jsonldManager.DocumentLoader(), credentialJSON); err != nil {
+			return newVerificationError("credential contains members that are not covered by the signature: %w", err)
+		}
+		return nil
 	case vc.JWTCredentialProofFormat:
 		return sv.jwtSignature(credentialToVerify.Raw(), credentialToVerify.Issuer.String(), validateAt)
 	default:
